@@ -13,6 +13,10 @@ tau_ij = <w_i| Y(x)Y |w_j*>, which needs no square root of a spectrum and is acc
 Part B (mode P).  For every state of a declared sub-alphabet x model x rank option x ensemble size x theta lattice point
 the model's forward() is executed; the Stiefel matrix and sqrt(rho) are read back, the ensemble is recomputed with plain
 numpy, must reproduce rho, its average measure must equal the loss (lock-step), and the loss must not be below the closed form.
+Audit wave: the same with the two-qubit state zero-padded into 2x3 / 3x2 (the dimA<dimB / dimA>dimB contraction branches; convex-roof values
+unchanged), DensityMatrixGMEModel(CPrank in {2,3}) (loss = 1 - sum_a |<phi_a|psi_a>|^2 with phi_a the normalised sum of CPrank product states
+recomputed from the raw coefficients; only 0 <= loss <= 1 remains of the bound), get_state(tag_grad) against what forward() used,
+get_eof_pure(eps in {0,1e-14,1e-6}) on the pure lattice, and the list / np.int64 / ndarray forms of get_negativity's dim.
 """
 import itertools
 
@@ -33,13 +37,19 @@ RULE = ('part A: state = explicit two-qubit ensemble reached by mix-in events (w
         'reference (Wootters via singular values of tau, partial transpose by reshape); local unitaries {1,H,S,g}x{1,H,S,g} at every state '
         'of depth <= 1.  part B: configuration = (state, model, rank option, ensemble size) x theta lattice (structured isometry frames + '
         'scale*generic atom); transition = one forward() compared with the average measure of the independently recomputed ensemble and with '
-        'the closed form.  non-trivial = entangled mixed states (part A) / losses strictly above the closed form (part B)')
+        'the closed form; the configuration also carries dims in {2x2, 2x3, 3x2} (state zero-padded) and, for the GME model, CPrank in {1,2,3} '
+        'x coefficient patterns, with get_state(tag_grad in {False,True}) compared at every GME evaluation; the pure lattice also runs get_eof_pure over '
+        'eps in {0,1e-14,1e-6} and get_negativity over the dim forms {tuple, list, np.int64 pair, int64 ndarray}.  non-trivial = entangled mixed states (part A) / losses strictly above the closed form (part B)')
 ASSUMPTIONS = [
     'reference concurrence: singular values of tau = W^dagger (Y(x)Y) W^* for the explicit ensemble W (Wootters 1998); self-checked against 2|det| on pure states, 2 p_max - 1 on Bell-diagonal states and the Verstraete et al. bounds against the negativity',
     'convex roofs on two qubits: E_F = h((1+sqrt(1-C^2))/2), GME = (1-sqrt(1-C^2))/2 (Wei-Goldbart), linear entropy of entanglement C^2/2 (Osborne); negativity N obeys sqrt((1-C)^2+C^2)-(1-C) <= 2N <= C',
     'TOL_C = 1e-6 for a closed-form concurrence (sqrt of a 4x4 Hermitian spectrum with backward error ~100 eps: 3 sqrt(100 eps) = 4.5e-7); E_F and GME are compared through the monotone maps C -> E_F, GME evaluated at C_ref -+ TOL_C',
     'models: the Stiefel matrix and sqrt(rho) are read back from the model (attributes manifold / manifold_stiefel / _sqrt_rho); ensemble sizes below 2 are rejected by numqi.manifold.Stiefel (dim>=2) and counted, not checked',
     'theta lattice points whose frame has condition number > 1e3 (float64) / 10 (float32) are outside the stated conditioning bound of the polar map and are skipped (counted)',
+    'padded dimensions: a two-qubit state embedded in levels {0,1}x{0,1} of 2x3 / 3x2 has the same convex-roof values (every member of every decomposition lies in the support); rank option None then means 6',
+    'CPrank>1: phi_a = sum_c k_ac |u_ac>|v_ac> normalised, k_ac read from manifold_coeff (softplus); tolerances scale with kphi = (sum_c k_ac)^2/|sum_c ..|^2, points with kphi > 1e3 are outside (counted); the closed form is not a bound there, only 0 <= loss <= 1',
+    'get_state(tag_grad): equality with the chart outputs within the chart error; requires_grad of the returned tensors equals tag_grad (its only visible effect)',
+    'get_eof_pure(eps): weights <= eps dropped; |E - E_ref| <= e|log e| + 1e3 EPS with e = eps + 16 EPS, and E = entropy of the weights above eps within 16 EPS |log 16 EPS| + 1e3 EPS (weights within 16 EPS of eps may go either way)',
     'generic atoms (local alphabet atoms of C05, entangled atoms, local unitaries, theta atoms) are drawn once from VERIF_SEED',
 ]
 CHUNK = 1
@@ -55,6 +65,21 @@ TOL_C = 1e-6
 TOL_CPURE = float(np.sqrt(64 * EPS))
 # get_eof_pure(eps=1e-10) drops Schmidt weights below its documented eps: error <= eps |log eps| = 2.3e-9 ; + rounding
 TOL_EPURE = 5e-9
+# get_eof_pure(psi, eps): Schmidt weights lambda <= eps are dropped (documented: "a small number to avoid log(0)").  The weights come from eigvalsh
+# of a Gram matrix of norm 1 (absolute error <= 16 EPS), so a weight is certainly kept if lambda > eps + 16 EPS, certainly dropped if
+# lambda < eps - 16 EPS.  (i) whatever is dropped is <= e' = eps + 16 EPS and at most one of the two weights can be (the other is >= 1/2):
+# |E - E_ref| <= e' |log e'| (x|log x| increasing below 1/e) ; (ii) sharp form: E equals the entropy of the kept weights, where a weight perturbed by
+# 16 EPS changes x log x by at most |16 EPS log(16 EPS)| = 1.2e-13 ; + TOL_PLAIN for the evaluation.
+EOF_EPS = [0.0, 1e-14, 1e-6]
+TOL_EIG = 16 * EPS
+
+
+def tol_eof_eps(eps_):
+    e1 = eps_ + TOL_EIG
+    return float(e1 * abs(np.log(e1)) + 1e3 * EPS)
+
+
+TOL_EPURE_SHARP = float(TOL_EIG * abs(np.log(TOL_EIG)) + 1e3 * EPS)
 # plain formula evaluations (no square root at a spectrum edge): 1e3 eps
 TOL_PLAIN = 1e3 * EPS
 # GME relation (1-sqrt(1-C^2))/2 : 1-C^2 carries an absolute error <= 4 eps, |sqrt a - sqrt b| <= sqrt|a-b| = 3e-8 ; /2, twice (impl and reference)
@@ -240,7 +265,10 @@ def call(out, site, name, fn, **detail):
     return True, s
 
 
-def check_closed(nq, out, R, site, label, rho=None, with_relations=True):
+DIM_FORMS = [('list', lambda: [2, 2]), ('np.int64 pair', lambda: (np.int64(2), np.int64(2))), ('int64 ndarray', lambda: np.array([2, 2], dtype=np.int64))]
+
+
+def check_closed(nq, out, R, site, label, rho=None, with_relations=True, dim_forms=False):
     """closed-form invariants on one state (reference R); returns the observed (C, E, G, N)"""
     E = nq.entangle
     rho = R.rho if rho is None else rho
@@ -276,6 +304,12 @@ def check_closed(nq, out, R, site, label, rho=None, with_relations=True):
         okn, n = call(out, site, 'get_negativity', lambda: E.get_negativity(rho, (2, 2)), rho=rho, state=label)
         if okn and abs(n - R.N) > TOL_NEG:
             out.violation('%s/get_negativity/differs_from_partial_transpose' % site, 'negativity %.15g, sum of |negative eigenvalues| of the partial transpose %.15g (%s)' % (n, R.N, label), rho=rho)
+        if dim_forms and okn:
+            # other forms of the dim argument accepted by the function's own asserts (len(dim)==2, int(dim[i])): same computation, same bits
+            for fname, mk in DIM_FORMS:
+                okf, nf = call(out, site, 'get_negativity[dim form]', lambda mk=mk: E.get_negativity(rho, mk()), rho=rho, dim_form=fname, state=label)
+                if okf and nf != n:
+                    out.violation('%s/get_negativity[dim form]/differs_from_tuple_call' % site, 'get_negativity(rho, %s) = %.17g but %.17g with dim=(2,2) (%s)' % (fname, nf, n, label), rho=rho, dim_form=fname)
         # non-zero exactly when the partial transpose has a negative eigenvalue, with the dead band given by the Verstraete bounds:
         #   NPT by more than TOL_C  =>  C >= 2N > 2 TOL_C, so every measure must come out strictly positive
         #   PPT up to 1e-13        =>  C <= C_max(1e-13) = 6.3e-7, so every measure must come out (numerically) zero
@@ -329,8 +363,22 @@ def check_pure(nq, out, psi, t, label, real_too):
                 out.violation('pure/get_eof_pure/differs_from_schmidt_entropy', 'get_eof_pure = %.12g, entropy of the Schmidt weights = %.12g (%s, %s, %s)' % (e, e_ref, label, dt, pn), psi=mm)
             if ok and abs(e - F_eof(c_ref)) > TOL_EPURE + TOL_PLAIN:
                 out.violation('pure/get_eof_pure/not_h_of_concurrence', 'get_eof_pure = %.12g, h(C) = %.12g (%s)' % (e, F_eof(c_ref), label), psi=mm)
+            for eps_ in EOF_EPS:
+                ok, e = call(out, 'pure', 'get_eof_pure[eps]', lambda mm=mm, eps_=eps_: E.get_eof_pure(mm, eps=eps_), psi=mm, eps=eps_, state=label)
+                if not ok:
+                    continue
+                if abs(e - e_ref) > tol_eof_eps(eps_):
+                    out.violation('pure/get_eof_pure[eps]/differs_from_schmidt_entropy_by_more_than_eps_log_eps',
+                                  'get_eof_pure(eps=%g) = %.12g, entropy of the Schmidt weights = %.12g, allowed %.3g (%s, %s, %s)' % (eps_, e, e_ref, tol_eof_eps(eps_), label, dt, pn), psi=mm, eps=eps_)
+                keep = [float(-xlogx(x)) for x in p if x > eps_ + TOL_EIG]
+                maybe = [float(-xlogx(x)) for x in p if eps_ - TOL_EIG <= x <= eps_ + TOL_EIG]
+                cands = [sum(keep) + sum(sub) for k in range(len(maybe) + 1) for sub in itertools.combinations(maybe, k)]
+                if min(abs(e - c_) for c_ in cands) > TOL_EPURE_SHARP:
+                    out.violation('pure/get_eof_pure[eps]/not_entropy_of_weights_above_eps',
+                                  'get_eof_pure(eps=%g) = %.15g, entropy of the Schmidt weights above eps = %s (weights %s) (%s, %s, %s)' % (eps_, e, cands, p, label, dt, pn), psi=mm, eps=eps_)
+                out.count('eof_pure_eps_weight_dropped' if len(keep) < len(p) else 'eof_pure_eps_all_kept')
         rho = np.outer(v, v.conj())
-        check_closed(nq, out, R, 'pure', '%s, %s projector' % (label, dt), rho=rho)
+        check_closed(nq, out, R, 'pure', '%s, %s projector' % (label, dt), rho=rho, dim_forms=True)
     return c_ref
 
 
@@ -343,8 +391,13 @@ MODEL_CONFIGS = [
 ]
 
 
-def cfg_name(cfg):
+def cfg_name(cfg, dims=(2, 2), cp=1):
     name, opts = MODEL_CONFIGS[cfg]
+    opts = dict(opts)
+    if tuple(dims) != (2, 2):
+        opts['dim'] = '%dx%d' % tuple(dims)
+    if cp != 1:
+        opts['CPrank'] = cp
     full = {'EOF': 'EntanglementFormationModel', 'CONC': 'ConcurrenceModel', 'LE': 'DensityMatrixLinearEntropyModel', 'GME': 'DensityMatrixGMEModel'}[name]
     if opts:
         full += '[' + ','.join('%s=%s' % kv for kv in sorted(opts.items())) + ']'
@@ -464,21 +517,48 @@ def chart_kappa(method, theta, n, r):
 
 
 QUBIT = [np.array(v, dtype=np.complex128) / np.linalg.norm(v) for v in ([1, 0], [0, 1], [1, 1], [1, -1], [1, 1j], [1, -1j])]
+_W3 = np.exp(2j * np.pi / 3)
+# local alphabet of a padded (3-level) side: the qubit alphabet embedded in levels 0,1, the unused level |2> and two vectors with equal weight
+# on every level (the product states of the GME model may leave the support of the padded state; the bound must hold all the same)
+QUTRIT = [np.concatenate([v, [0]]) for v in QUBIT] + [np.array(v, dtype=np.complex128) / np.linalg.norm(v) for v in ([0, 0, 1], [1, 1, 1], [1, _W3, _W3 ** 2])]
+LOCAL_ALPHABET = {2: QUBIT, 3: QUTRIT}
 
 
-def sphere_lattice(env, tier, n, f32=False):
-    """product-state parameters of the GME model: list of (label, [theta_A (n,4), theta_B (n,4)]) in the quotient layout [Re ; Im]"""
+def sphere_lattice(env, tier, n, f32=False, dims=(2, 2), cp=1, co_product=False):
+    """product-state parameters of the GME model: list of (label, [theta_A (n*cp,2 dA), theta_B (n*cp,2 dB)], theta_coeff (n*cp,) or None) in the
+    quotient layout [Re ; Im].  cp = CPrank: member a owns the rows a*cp .. a*cp+cp-1 and (cp>1) the softplus parameters of its cp coefficients"""
     def pk(vs):
         vs = np.stack(vs)
         return np.concatenate([vs.real, vs.imag], axis=1)
-    ret = [('cycle', [pk([QUBIT[a % 6] for a in range(n)]), pk([QUBIT[(2 * a + 1) % 6] for a in range(n)])])]
+    m = n * cp
+    LA, LB = LOCAL_ALPHABET[dims[0]], LOCAL_ALPHABET[dims[1]]
+    std = tuple(dims) == (2, 2) and cp == 1
+    ret = [('cycle', [pk([LA[a % len(LA)] for a in range(m)]), pk([LB[(2 * a + 1) % len(LB)] for a in range(m)])])]
     if not (f32 and tier == 'quick'):
-        ret.append(('all|00>', [pk([QUBIT[0]] * n), pk([QUBIT[0]] * n)]))
+        ret.append(('all|00>', [pk([LA[0]] * m), pk([LB[0]] * m)]))
     if tier == 'thorough':
-        ret.append(('cycle2', [3.0 * pk([QUBIT[(a + 4) % 6] for a in range(n)]), 0.01 * pk([QUBIT[(5 * a + 2) % 6] for a in range(n)])]))
+        ret.append(('cycle2', [3.0 * pk([LA[(a + 4) % len(LA)] for a in range(m)]), 0.01 * pk([LB[(5 * a + 2) % len(LB)] for a in range(m)])]))
     for k in range(1 if (tier == 'quick' or f32) else 2):
-        rng = env.rng('C13', 'sphere', n, k)
-        ret.append(('atom%d' % k, [rng.normal(size=(n, 4)), rng.normal(size=(n, 4))]))
+        rng = env.rng('C13', 'sphere', n, k) if std else env.rng('C13', 'sphere', n, k, dims[0], dims[1], cp)
+        ret.append(('atom%d' % k, [rng.normal(size=(m, 2 * dims[0])), rng.normal(size=(m, 2 * dims[1]))]))
+    if cp == 1:
+        return [(lb, th, None) for lb, th in ret]
+    # coefficient parameters (PositiveReal, softplus): equal coefficients, a ramp over 3 decades, a generic atom.
+    # pattern i of the product states is paired with coefficient pattern i; co_product (thorough, 2x2 float64 CPrank=2): the full product
+    co = [('ramp', np.linspace(-3.0, 3.0, m)), ('equal', np.zeros(m)), ('catom', 2.0 * env.rng('C13', 'cpcoeff', n, cp).normal(size=m))]
+    if not co_product:
+        return [('%s,coeff=%s' % (lb, co[i % 3][0]), th, co[i % 3][1]) for i, (lb, th) in enumerate(ret)]
+    return [('%s,coeff=%s' % (lb, cl), th, cv) for lb, th in ret for cl, cv in co]
+
+
+def pad_state(rho, dims):
+    """two-qubit operator embedded in levels {0,1} x {0,1} of C^dA (x) C^dB (zero elsewhere)"""
+    dA, dB = dims
+    if (dA, dB) == (2, 2):
+        return rho
+    idx = [i * dB + j for i in range(2) for j in range(2)]
+    ret = np.zeros((dA * dB, dA * dB), dtype=rho.dtype)
+    ret[np.ix_(idx, idx)] = rho
     return ret
 
 
@@ -497,39 +577,55 @@ def run_model_case(nq, out, env, case):
     import torch
     E = nq.entangle
     name, opts = MODEL_CONFIGS[case['cfg']]
-    mname = cfg_name(case['cfg'])
+    dims = tuple(case.get('dims', (2, 2)))     # (2,2), or the two-qubit state zero-padded into 2x3 / 3x2 (same convex-roof values: every
+    dA, dB = dims                              # member of every decomposition lies in the support of rho, i.e. in the 2x2 block)
+    D = dA * dB
+    cp = case.get('cprank', 1)                 # CPrank of the GME model (cp>1: the members are compared with normalised sums of cp product states)
+    mname = cfg_name(case['cfg'], dims, cp)
     label, ens = model_states(env, env.tier)[case['state']]
     R = Ref(ens)
-    rho = R.rho
-    rank = case['rank']            # 1..4 or None
-    r_eff = 4 if rank is None else rank
+    rho = pad_state(R.rho, dims)
+    rank = case['rank']            # 1..4 or None (None = dA*dB)
+    r_eff = D if rank is None else rank
     f32 = opts.get('dtype') == 'float32'
     eps = EPS32 if f32 else EPS
     site = 'model/%s' % mname
     method = opts.get('method', 'polar')
     F = {'EOF': F_eof, 'CONC': F_id, 'LE': F_le, 'GME': F_gme}[name]
     closed_ref = F(R.C)
-    rdmA = ref.partial_trace(rho, [2, 2], [0])
-    rdmB = ref.partial_trace(rho, [2, 2], [1])
+    rdmA = ref.partial_trace(R.rho, [2, 2], [0])
+    rdmB = ref.partial_trace(R.rho, [2, 2], [1])
     le_cap = min(1 - np.trace(rdmA @ rdmA).real, 1 - np.trace(rdmB @ rdmB).real)
     # lock-step tolerance: both sides use the same X and sqrt(rho); only the evaluation differs: 1e3 eps, except the concurrence model whose
     # members carry sqrt(2(p^2 - tr rdm^2)) with an absolute error 16 eps p^2 under the root: sum_a p_a sqrt(16 eps) = 6e-8 -> with c: 1e-6
     tol_lock0 = 1e-6 if name == 'CONC' else 1e3 * eps
     n_list = list(range(1, 9)) if r_eff == 1 else list(range(r_eff, 9))
     if env.tier == 'quick':          # quick: the two smallest admissible sizes, one in the middle, the largest; thorough: every size rank..8
+        if cp > 1:                   # CPrank>1, quick: the smallest admissible size and 6
+            n_list = sorted(set(n_list) & {max(2, r_eff), 6})
+        elif dims != (2, 2):         # padded dimensions, quick: the smallest admissible size and the largest
+            n_list = sorted(set(n_list) & {1, max(2, r_eff), 8})
+        else:
+            n_list = sorted(set(n_list) & {1, max(2, r_eff), max(2, r_eff) + 1, 6, 8})
+    added = dims != (2, 2) or cp > 1
+    if added and env.tier == 'thorough':
+        # padded dimensions / CPrank>1, thorough: thorough's states, rank options, product-state patterns; the size set and the theta lattice of quick's 2x2 runs
         n_list = sorted(set(n_list) & {1, max(2, r_eff), max(2, r_eff) + 1, 6, 8})
+    lat_tier = 'quick' if added else env.tier
+    co_product = env.tier == 'thorough' and dims == (2, 2) and cp == 2 and not f32
     for n in n_list:
         cfgd = dict(model=mname, state=label, rank=rank, num_term=n)
         out.trans()
         try:
             if name == 'EOF':
-                model, st = E.EntanglementFormationModel(2, 2, n, rank=rank), 'manifold'
+                model, st = E.EntanglementFormationModel(dA, dB, n, rank=rank), 'manifold'
             elif name == 'CONC':
-                model, st = E.ConcurrenceModel(2, 2, n, rank=rank), 'manifold'
+                model, st = E.ConcurrenceModel(dA, dB, n, rank=rank), 'manifold'
             elif name == 'LE':
-                model, st = E.DensityMatrixLinearEntropyModel((2, 2), n, rank=rank, kind=opts['kind'], method=method), 'manifold_stiefel'
+                model, st = E.DensityMatrixLinearEntropyModel(dims, n, rank=rank, kind=opts['kind'], method=method), 'manifold_stiefel'
             else:
-                model, st = E.DensityMatrixGMEModel((2, 2), n, rank=rank, dtype=opts['dtype']), 'manifold_stiefel'
+                kw = {} if cp == 1 else {'CPrank': cp}      # cp == 1 stays the default-argument call
+                model, st = E.DensityMatrixGMEModel(dims, n, rank=rank, dtype=opts['dtype'], **kw), 'manifold_stiefel'
         except AssertionError as e:
             if n < 2:
                 out.count('rejected_by_precondition[num_term<2: Stiefel requires dim>=2]')
@@ -547,7 +643,7 @@ def run_model_case(nq, out, env, case):
             # the ensemble of rho.
             try:
                 v_other = np.array([np.cos(0.3), 0, 0, np.sin(0.3)], dtype=np.complex128)
-                model.set_density_matrix(np.outer(v_other, v_other.conj()))
+                model.set_density_matrix(pad_state(np.outer(v_other, v_other.conj()), dims))
                 with torch.no_grad():
                     model()
             except Exception:
@@ -564,19 +660,19 @@ def run_model_case(nq, out, env, case):
             continue
         if r_eff < R.rank:
             out.violation('%s/set_density_matrix/accepts_truncating_rank' % site, 'rank option %r accepted for a state of rank %d: the ensemble cannot reproduce rho' % (rank, R.rank), rho=rho, **cfgd)
-        Sq = model._sqrt_rho.detach().numpy().astype(np.complex128).reshape(4, -1)
+        Sq = model._sqrt_rho.detach().numpy().astype(np.complex128).reshape(D, -1)
         d_sq = float(np.abs(Sq @ Sq.conj().T - rho).max())
         if d_sq > 1e3 * eps:
             out.violation('%s/set_density_matrix/sqrt_rho_not_rho' % site, 'the stored eigen-ensemble reproduces rho only to %.3g (rank option %r)' % (d_sq, rank), rho=rho, **cfgd)
             continue
         stief = getattr(model, st)
         npar = int(stief.theta.numel())
-        lat = theta_lattice(env, env.tier, method, n, Sq.shape[1], npar)
-        sph = sphere_lattice(env, env.tier, n, f32) if name == 'GME' else [('-', None)]
-        for (tl, theta), (sl, sth) in itertools.product(lat, sph):
+        lat = theta_lattice(env, lat_tier, method, n, Sq.shape[1], npar)
+        sph = sphere_lattice(env, env.tier, n, f32, dims, cp, co_product) if name == 'GME' else [('-', None, None)]
+        for (tl, theta), (sl, sth, cth) in itertools.product(lat, sph):
             det = dict(cfgd, theta_label=tl, theta=theta, rho=rho)
             if sth is not None:
-                det.update(sphere_label=sl, theta_A=sth[0], theta_B=sth[1])
+                det.update(sphere_label=sl, theta_A=sth[0], theta_B=sth[1], theta_coeff=cth)
             kappa = chart_kappa(method, theta, n, Sq.shape[1])
             if kappa > (10 if f32 else 1e3):
                 out.count('skipped_ill_conditioned')
@@ -593,10 +689,13 @@ def run_model_case(nq, out, env, case):
                     if sth is not None:
                         for mp, th in zip(model.manifold_psi, sth):
                             mp.theta.data[...] = torch.tensor(th, dtype=mp.theta.dtype)
+                    if cth is not None:
+                        model.manifold_coeff.theta.data[...] = torch.tensor(cth, dtype=model.manifold_coeff.theta.dtype)
                     with np.errstate(all='ignore'):
                         loss = float(model().item())
                         X = stief().detach().numpy().astype(np.complex128)
                         phis = [mp().detach().numpy().astype(np.complex128) for mp in model.manifold_psi] if sth is not None else None
+                        craw = model.manifold_coeff().detach().numpy().astype(np.float64).reshape(n, cp) if cth is not None else None
             except Exception as e:
                 out.violation('%s/forward/raises_%s' % (site, type(e).__name__), 'forward() raised %r at theta=%s' % (e, tl), **det)
                 continue
@@ -611,8 +710,8 @@ def run_model_case(nq, out, env, case):
             if not np.isfinite(loss):
                 out.violation('%s/forward/not_finite' % site, 'forward() = %r at theta=%s' % (loss, tl), **det)
                 continue
-            psi_t = (Sq @ X.T).T.reshape(n, 2, 2)                 # member a: sum_r X[a,r] sqrt(lambda_r) v_r
-            Wm = psi_t.reshape(n, 4).T
+            psi_t = (Sq @ X.T).T.reshape(n, dA, dB)                 # member a: sum_r X[a,r] sqrt(lambda_r) v_r
+            Wm = psi_t.reshape(n, D).T
             rho_e = Wm @ Wm.conj().T
             d_ens = float(np.abs(rho_e - rho).max())
             if d_ens > 1e3 * eps * max(1.0, kappa ** 2) + d_sq:
@@ -628,18 +727,65 @@ def run_model_case(nq, out, env, case):
             elif name == 'LE':
                 avg = float(np.where(p > 0, 2 * s1 ** 2 * s2 ** 2 / np.where(p > 0, p, 1.0), 0.0).sum())
             else:
-                ov1 = np.einsum('aij,ai,aj->a', psi_t, phis[0], phis[1])
-                ov2 = np.einsum('aij,ai,aj->a', psi_t, phis[0].conj(), phis[1].conj())
-                a1, a2 = float(1 - (np.abs(ov1) ** 2).sum()), float(1 - (np.abs(ov2) ** 2).sum())
                 nphi = max(float(np.abs(np.linalg.norm(ph, axis=1) - 1).max()) for ph in phis)
                 if nphi > 1e3 * eps:
                     out.violation('%s/forward/product_vectors_not_normalised' % site, 'local vectors of the product states have norm-1 = %.3g' % nphi, **det)
                     continue
+                if cp == 1:
+                    phi = np.einsum('ai,aj->aij', phis[0], phis[1])
+                    cnorm = None
+                else:
+                    # CPrank>1 (get_state / forward): member a is compared with phi_a = sum_c k_ac |u_ac>|v_ac> / |sum_c ...|, k_ac > 0 (softplus).
+                    # The normalisation divides by |sum_c ...|^2, formed from cp^2 terms of size <= (sum_c k_ac)^2: relative error
+                    # eps * kphi with kphi = (sum_c k_ac)^2 / |sum_c ...|^2 >= 1 (cancellation between the product vectors); it enters phi_a,
+                    # the overlaps and the loss linearly -> tolerances * kphi.  Points with kphi > 1e3 (phi_a = 0/0 in the limit) are outside.
+                    phi = np.einsum('ac,aci,acj->aij', craw, phis[0].reshape(n, cp, dA), phis[1].reshape(n, cp, dB))
+                    nrm2 = (np.abs(phi) ** 2).sum(axis=(1, 2))
+                    with np.errstate(all='ignore'):
+                        kphi = float((craw.sum(axis=1) ** 2 / nrm2).max())
+                    if not kphi <= 1e3:
+                        out.count('outside_math_domain[CPrank: product vectors cancel]')
+                        continue
+                    tol_lock = tol_lock * max(1.0, kphi)
+                    cnorm = craw / np.sqrt(nrm2)[:, None]
+                    phi = phi / np.sqrt(nrm2)[:, None, None]
+                ov1 = np.einsum('aij,aij->a', psi_t, phi)
+                ov2 = np.einsum('aij,aij->a', psi_t, phi.conj())
+                a1, a2 = float(1 - (np.abs(ov1) ** 2).sum()), float(1 - (np.abs(ov2) ** 2).sum())
+                # get_state(tag_grad): the documented accessor of the optimised ensemble must hand out exactly what forward() used
+                for tg in (False, True):
+                    out.trans()
+                    try:
+                        gs = model.get_state(tag_grad=tg)
+                    except Exception as e:
+                        out.violation('%s/get_state/raises_%s' % (site, type(e).__name__), 'get_state(tag_grad=%r) raised %r at theta=%s' % (tg, e, tl), **det)
+                        continue
+                    if not (isinstance(gs, tuple) and len(gs) == (2 if cp == 1 else 3) and len(gs[1]) == 2):
+                        out.violation('%s/get_state/wrong_structure' % site, 'get_state(tag_grad=%r) returned %r' % (tg, gs), **det)
+                        continue
+                    flat = [gs[0]] + list(gs[1]) + ([gs[2]] if cp > 1 else [])
+                    if not all(bool(t.requires_grad) == tg for t in flat):
+                        out.violation('%s/get_state/grad_flag_ignored' % site, 'get_state(tag_grad=%r) returned tensors with requires_grad=%r' % (tg, [bool(t.requires_grad) for t in flat]), **det)
+                    got = [t.detach().numpy().astype(np.complex128) for t in flat]
+                    want = [X, phis[0], phis[1]] if cp == 1 else [X, phis[0].reshape(n, cp, dA), phis[1].reshape(n, cp, dB), cnorm.astype(np.complex128)]
+                    # same deterministic chart evaluated twice: each evaluation is within the chart's error 1e3 eps kappa^2 of the exact point
+                    tols = [1e3 * eps * max(1.0, kappa ** 2), 1e3 * eps, 1e3 * eps] + ([1e3 * eps * max(1.0, kphi)] if cp > 1 else [])
+                    for nm, g_, w_, t_ in zip(('matX', 'psi_list[0]', 'psi_list[1]', 'coeff'), got, want, tols):
+                        if g_.shape != w_.shape or not float(np.abs(g_ - w_).max()) <= t_:
+                            out.violation('%s/get_state/%s_differs_from_forward' % (site, nm.split('[')[0]),
+                                          'get_state(tag_grad=%r): %s differs from the value forward() used (shape %s vs %s) at theta=%s' % (tg, nm, g_.shape, w_.shape, tl), observed=g_, expected=w_, **det)
+                out.count('get_state_calls', 2)
             if name == 'GME':
                 obs = loss
                 avg = a1 if abs(loss - a1) <= abs(loss - a2) else a2
                 best = float((p - s1 ** 2).sum())                # every member at its own optimal product state
-                if obs < best - tol_lock:
+                if cp > 1:
+                    # sums of cp product states: the closed form (a minimum over product states) is no bound; what remains is 0 <= loss <= 1
+                    if not (-tol_lock <= obs <= 1 + tol_lock):
+                        out.violation('%s/forward/loss_outside_unit_interval' % site, 'loss %.12g = 1 - sum_a |<phi_a|psi_a>|^2 outside [0,1] at theta=%s' % (obs, tl), **det)
+                    if obs < closed_ref - 1e-6:
+                        out.count('cprank_losses_below_closed_form')
+                elif obs < best - tol_lock:
                     out.violation('%s/forward/below_ensemble_optimum' % site, 'loss %.12g < sum_a p_a (1 - max overlap^2) = %.12g of its own ensemble at theta=%s' % (obs, best, tl), **det)
             elif name == 'LE' and opts['kind'] == 'concave':
                 obs = -loss
@@ -652,16 +798,16 @@ def run_model_case(nq, out, env, case):
             # lambdas (singular values of sqrt(rho) sqrt(rho~)) are Hoelder-1/2: |C(rho_e) - C(rho)| <= 8 sqrt(d_ens)
             slack_c = 8 * np.sqrt(4 * d_ens)
             lower = F(R.C - slack_c) - tol_lock
-            if obs < lower:
+            if cp == 1 and obs < lower:
                 out.violation('%s/forward/below_closed_form' % site, 'loss %.12g is below the closed form %.12g of the state (C_ref=%.9g) at theta=%s' % (obs, closed_ref, R.C, tl), **det)
             if name == 'LE' and opts['kind'] == 'concave' and obs > le_cap + tol_lock + 4 * d_ens:
                 out.violation('%s/forward/above_reduced_state_linear_entropy' % site, 'average linear entropy %.12g of an ensemble exceeds 1 - tr rho_A^2 = %.12g (concavity)' % (obs, le_cap), **det)
             out.trace()
-            out.outcome((case['cfg'], case['state'], np.round(obs, 6)), nontrivial=bool(obs > closed_ref + 1e-6))
+            out.outcome((case['cfg'], dims, cp, case['state'], np.round(obs, 6)), nontrivial=bool(obs > closed_ref + 1e-6) if cp == 1 else bool(obs > 1e-6))
     # the numqi closed form itself on this state (ties part B to what part A verified), once per case
-    if case['rank'] is None:
+    if case['rank'] is None and dims == (2, 2) and cp == 1:
         check_closed(nq, out, R, 'mix', 'model state %s' % label)
-    out.sample = {'kind': 'model', 'model': mname, 'state': label, 'rank_option': rank, 'C_ref': R.C, 'closed_form_ref': closed_ref}
+    out.sample = {'kind': 'model', 'model': mname, 'state': label, 'dims': list(dims), 'rank_option': rank, 'C_ref': R.C, 'closed_form_ref': closed_ref}
 
 
 # ------------------------------------------------------------------------------------------------ cases
@@ -693,6 +839,24 @@ def build_cases(tier, seed):
         for cfg in range(len(MODEL_CONFIGS)):
             for rank in ((None, 3, 2, 1) if tier == 'quick' else (None, 4, 3, 2, 1)):
                 cases.append({'kind': 'model', 'state': s, 'cfg': cfg, 'rank': rank})
+    # padded dimensions (the dimA>dimB / dimA<dimB contraction branches) and CPrank>1 of the GME model
+    PAD_CFG = {'quick': [0, 1, 2, 3, 4], 'thorough': [0, 1, 2, 3, 4, 5, 6]}[tier]
+    pad_ranks = (None, 3, 2, 1)
+    for dims in ((2, 3), (3, 2)):
+        for s in range(ns):
+            for cfg in PAD_CFG:
+                for rank in pad_ranks:
+                    cases.append({'kind': 'model', 'state': s, 'cfg': cfg, 'rank': rank, 'dims': list(dims)})
+    cp_list = [(4, (2, 2), 2), (4, (2, 2), 3)] + ([(5, (2, 2), 2), (4, (3, 2), 2)] if tier == 'thorough' else [])
+    cp_ranks = (None, 2) if tier == 'quick' else (None, 3, 2, 1)
+    for cfg, dims, cp in cp_list:
+        for s in range(ns):
+            for rank in cp_ranks:
+                cases.append({'kind': 'model', 'state': s, 'cfg': cfg, 'rank': rank, 'dims': list(dims), 'cprank': cp})
+    info['models_padded'] = {'dims': ['2x3', '3x2'], 'num_term': 'quick: {max(rank,2), 8}; thorough: {max(rank,2), max(rank,2)+1, 6, 8}', 'theta_lattice': 'the quick lattice in both tiers', 'configs': [cfg_name(i) for i in PAD_CFG], 'rank_options': list(pad_ranks), 'note': 'two-qubit state zero-padded; rank None = 6'}
+    info['models_cprank'] = {'configs': [cfg_name(c, d, k) for c, d, k in cp_list], 'rank_options': list(cp_ranks),
+                             'coefficients': 'softplus parameters {ramp -3..3, equal, generic atom} paired with the product-state patterns (thorough, 2x2 float64 CPrank=2: full product)',
+                             'num_term': 'quick: {max(rank,2), 6}; thorough: {max(rank,2), max(rank,2)+1, 6, 8}', 'theta_lattice': 'the quick lattice in both tiers'}
     info['models'] = {'states': ns, 'configs': [cfg_name(i) for i in range(len(MODEL_CONFIGS))], 'rank_options': [None, 3, 2, 1] if tier == 'quick' else [None, 4, 3, 2, 1],
                       'num_term': ('{1 (rank 1 only; rejected by Stiefel), max(rank,2), max(rank,2)+1, 6, 8}' if tier == 'quick' else 'every size rank..8 (1 only for rank 1; rejected by Stiefel)'),
                       'theta_lattice': 'polar: {s*atom_k} + {frame, frame + s*atom_k : frame in eye_first, eye_last, fourier, hadamard} (quick: one atom per (frame, scale)); other charts: {s*atom_k, zero, e0, -ones}; GME: x product-state patterns {cycle, all|00>, atom} (float32 quick: cycle, atom; thorough adds cycle2 and a second atom)',
@@ -732,7 +896,7 @@ def run_case(case, out, env):
                 exact = max(0.0, 2 * max(w) / 8 - 1)
                 if abs(R.C - exact) > 1e-13:
                     raise RuntimeError('oracle self-check failed: Bell-diagonal %s C_ref=%r exact=%r' % (w, R.C, exact))
-                c, e, g, n = check_closed(numqi, out, R, 'family', 'Bell-diagonal weights %s/8' % (w,))
+                c, e, g, n = check_closed(numqi, out, R, 'family', 'Bell-diagonal weights %s/8' % (w,), dim_forms=True)
                 out.outcome(('bd', w, None if c is None else round(c, 7)), nontrivial=bool(exact > 0 and max(w) < 8))
         elif fam == 'werner_line':
             third = 1 / 3
@@ -746,7 +910,7 @@ def run_case(case, out, env):
                     if abs(R.C - exact) > 1e-13:
                         raise RuntimeError('oracle self-check failed: Werner p=%r C_ref=%r exact=%r' % (p, R.C, exact))
                     lab = 'p*Bell%d + (1-p)/4, p=%.17g' % (bi, p)
-                    c, e, g, n = check_closed(numqi, out, R, 'family', lab)
+                    c, e, g, n = check_closed(numqi, out, R, 'family', lab, dim_forms=True)
                     check_lu(numqi, out, R, local_unitaries(env), lab)
                     out.outcome(('werner', bi, p, None if c is None else round(c, 7)), nontrivial=bool(exact > 0 and p < 1))
         else:
@@ -756,7 +920,7 @@ def run_case(case, out, env):
                     idx = [(stride * t + nterm) % n for t in range(nterm)]
                     ens = [(1.0 / nterm, comps[i][1][0][1]) for i in idx]
                     R = Ref(ens)
-                    c, e, g, nn = check_closed(numqi, out, R, 'family', 'equal mixture of components %s' % idx)
+                    c, e, g, nn = check_closed(numqi, out, R, 'family', 'equal mixture of components %s' % idx, dim_forms=True)
                     out.outcome(('eq', stride, nterm), nontrivial=bool(R.C > TOL_C and R.rank > 1))
             eye = np.eye(4, dtype=np.complex128)
             for nb in range(1, 5):
